@@ -42,7 +42,13 @@ def plan(tier, seed):
             # `statsd = True`: the daemon's own circusd-stats worker inherits every managed socket; it is restarted, killed
             # and stopped between the generations, and the sockets must stay the daemon's listening ones throughout
             [{'seed': seed, 'idx': 2000 + i, 'gens': 4 if tier == 'quick' else 8, 'statsd': True}
-             for i in range(2 if tier == 'quick' else 8)])
+             for i in range(2 if tier == 'quick' else 8)] +
+            # seed-independent: stdin_socket names a socket whose section name has upper-case letters
+            [{'seed': seed, 'idx': 3000, 'gens': 2 if tier == 'quick' else 6, 'conf': {
+                'sockets': [{'name': 'W3b-x', 'kind': 'inet', 'explicit': False}, {'name': 'ux', 'kind': 'unix'}],
+                'watchers': [{'name': 'w0', 'sock': 'ux', 'ref': '$(circus.sockets.ux)', 'where': 'args', 'np': 1},
+                             {'name': 'w1', 'sock': 'W3b-x', 'ref': '((circus.sockets.W3b-x))', 'where': 'cmd', 'np': 2}],
+                'stdin_watcher': True}}])
 
 
 def build(rnd):
@@ -187,6 +193,18 @@ def _case(d, conf, actions, rnd, res):
             return
         res.obs['started_over_a_stale_unix_socket_file'] += 1
     if not d.wait_ready(20) or not d.workers_up(total, 15):
+        if conf.get('stdin_watcher') and d.proc.poll() is None and 'Exception occurred in preexec_fn' in d.output():
+            # the daemon answers, and the worker of a stdin_socket watcher cannot be created: the socket named exactly
+            # as its section is never handed over (socket names from a file are stored lower-cased)
+            try:
+                none = [w_ for w_ in ('sin', 'sinu') if d.call('list', name=w_, timeout=5).get('pids') == []]
+            except Exception:
+                none = []
+            if none:
+                res.violation('C07/stdin-socket-watcher-cannot-spawn',
+                              'stdin_socket = %s: the watcher(s) %s never get a worker, process creation fails in the '
+                              'child before exec (%s)' % (conf['sockets'][0]['name'], none, d.output()[-160:]))
+                return
         res.inconclusive.append('daemon not ready: %s' % d.output()[-300:])
         return
     ls = d.call('listsockets').get('sockets', [])
